@@ -205,6 +205,24 @@ def run(ctx):
                 for f, v in before[coll][k].items():
                     if after[coll][k].get(f) != v:
                         ctx.violate("preserve", f"{coll}:{f}", {"ext": e.name, "def": k, "where": where, "before": v, "after": after[coll][k].get(f)})
+        if not cross and ch.coin(1, 2, "edit-loaded-copy"):
+            # the history continues on the loaded copy: edit it in place, then load the stored document again
+            ctx.checked("load-deterministic")
+            for od in list(e2.operations.values())[:3]:
+                od.misc["edited"] = len(ctx.events)
+                od.description = od.description + " (edited)"
+            for td in list(e2.types.values())[:2]:
+                td.description = "edited"
+            e2.runtime_reqs.add("edited.req")
+            ctx.probe("loaded_copy_edited_in_place")
+            try:
+                again = norm_summary(ext_summary(Extension.from_json(s1)))
+                if again != after:
+                    from ..engines.c_persist import _first_diff
+                    ctx.violate("load-deterministic", "same-document-loads-differently-after-editing-a-loaded-copy",
+                                {"ext": e.name, "diff": _first_diff(after, again)})
+            except Exception as ex:  # noqa: BLE001
+                ctx.violate("load", f"second-load-raised:{type(ex).__name__}", {"ext": e.name, "msg": str(ex)[:200]})
         ctx.checked("fixpoint")
         if doc2 != doc1:
             from ..engines.c_persist import _first_diff
